@@ -991,6 +991,26 @@ class Facts:
             self.normalise_notes = getattr(self, "normalise_notes", []) + ["flag specialisation skipped: %r" % (e,)]
         new_from = self._hoist_into_conversions(known)
         keep_body = set()
+        # `text.parse::<T>()` is `T::from_str(text)` when T's FromStr impl is one of the analysed crates'
+        for p, f in list(self.fns.items()):
+            if f.crate not in known:
+                continue
+            j = None
+            for bi, blk in enumerate(f.blocks):
+                t = blk["term"]
+                if t["k"] == "call" and t["callee"].endswith("core::str::<impl str>::parse") and t.get("targs"):
+                    cand = "<%s as core::str::traits::FromStr>::from_str" % t["targs"][0]
+                    if cand in self.fns:
+                        if j is None:
+                            j = json.loads(json.dumps(f.j))
+                        t2 = j["blocks"][bi]["term"]
+                        t2["callee"], t2["decl"], t2["ck"] = cand, "core::str::traits::FromStr::from_str", "item"
+            if j is not None:
+                nf = Fn(j, f.crate)
+                for attr in ("inlined", "inlined_paths"):
+                    if hasattr(f, attr):
+                        setattr(nf, attr, getattr(f, attr))
+                self.fns[p] = nf
         new_type_known = allk.get("__adts__") or {}
         new_type_known = {c: dict(new_type_known.get(c, {}), **(allk.get("__enums__") or {}).get(c, {})) for c in set(new_type_known) | set(allk.get("__enums__") or {})}
         self.known_types = {c: set(v) for c, v in new_type_known.items()}
